@@ -95,6 +95,17 @@ breaking('SP4-big-endian', {'C09': 'SP4'}, edit=[(M + 'group/spf2.py', "ret = in
 breaking('SP5-roll-one-axis', {'C09': 'SP5'}, edit=[(M + 'group/spf2.py', "ret = np.roll(mat.T, N0, axis=(0,1))", "ret = np.roll(mat.T, N0, axis=0)")])
 breaking('SP6-wrong-vector', {'C09': 'SP6'}, edit=[(M + 'group/spf2.py', "                    v2[ind0] = v1[ind0+N0]\n", "                    v2[ind0] = v0[ind0+N0]\n")])
 preserving('SP1-pow-generator', ['C09'], edit=[(M + 'group/spf2.py', "tmp0 = (1<<(2*x) for x in range(1,n+1))", "tmp0 = (4**x for x in range(1,n+1))")])
+breaking('MS2-elif-masks', {'C15': 'MS2'}, edit=[(M + 'group/_lie.py', "    if np.any(ind1):\n        tmp0 = np.arctan2(-x10[ind1], -x00[ind1])", "    elif np.any(ind1):\n        tmp0 = np.arctan2(-x10[ind1], -x00[ind1])")])
+breaking('AG2-transposed-entry', {'C15': 'AG2'}, edit=[(M + 'group/_lie.py', "        0.5j*(a*a-aH*aH-b*b+bH*bH), #x10", "        -0.5j*(a*a-aH*aH+b*b-bH*bH), #x10")])
+breaking('AG2-so3-entry-sign', {'C15': 'AG2'}, edit=[(M + 'group/_lie.py', "        aH*b+a*bH, 1j*(aH*b-a*bH), a*aH-b*bH,\n    ], axis=1).real.reshape(shape)", "        aH*b+a*bH, 1j*(a*bH-aH*b), a*aH-b*bH,\n    ], axis=1).real.reshape(shape)")])
+breaking('AG3-constructor-sign', {'C15': 'AG3'}, edit=[(M + 'group/_lie.py', "        -sb*cg,sb*sg,cb,", "        sb*cg,sb*sg,cb,")])
+breaking('AG3-extractor-sign', {'C15': 'AG3'}, edit=[(M + 'group/_lie.py', "tmp0 = np.arctan2(-x10[ind1], -x00[ind1]) % (2*np.pi)", "tmp0 = np.arctan2(x10[ind1], -x00[ind1]) % (2*np.pi)")])
+breaking('AG3-stored-combination', {'C15': 'AG3'}, edit=[(M + 'group/_lie.py', "        alpha[ind0] = tmp0/2\n        gamma[ind0] = tmp0/2", "        alpha[ind0] = tmp0/2\n        gamma[ind0] = 0")])
+breaking('AG3-generic-wrong-entry', {'C15': 'AG3'}, edit=[(M + 'group/_lie.py', "tmp2 = (x21[ind2]*tmp0)<0\n        gamma[ind2]", "tmp2 = (x12[ind2]*tmp0)<0\n        gamma[ind2]")])
+preserving('AG2-reordered-terms', ['C15'], edit=[(M + 'group/_lie.py', "        0.5j*(a*a-aH*aH-b*b+bH*bH), #x10", "        0.5j*(bH*bH-b*b+a*a-aH*aH), #x10")])
+breaking('AG4-su2-sign-convention', {'C15': 'AG4'}, edit=[(M + 'group/_lie.py', "cb*exp_apg.conj(), -sb*exp_amg.conj(), sb*exp_amg, cb*exp_apg", "cb*exp_apg.conj(), sb*exp_amg.conj(), -sb*exp_amg, cb*exp_apg")])
+breaking('AG4-su2-not-unitary-form', {'C15': 'AG4'}, edit=[(M + 'group/_lie.py', "cb*exp_apg.conj(), -sb*exp_amg.conj(), sb*exp_amg, cb*exp_apg", "cb*exp_apg.conj(), -sb*exp_amg.conj(), sb*exp_amg.conj(), cb*exp_apg")])
+breaking('AG4-swapped-phases', {'C15': 'AG4'}, edit=[(M + 'group/_lie.py', "cb*exp_apg.conj(), -sb*exp_amg.conj(), sb*exp_amg, cb*exp_apg", "cb*exp_apg, -sb*exp_amg, sb*exp_amg.conj(), cb*exp_apg.conj()")])
 breaking('refix-get_gme_2qubit', {'C13': 'F2', 'C05': 'F2'}, patch_reverse='fix_78cd862.diff')
 
 # ---- textual breaking edits, one per rule family
